@@ -160,13 +160,15 @@ func (w *c22World) add(fact, signer int) {
 	w.byHash[op.Hash().String()] = o.idx
 }
 
+// stored reports whether the body of o is still in the pool's storage. OperationBytes is asked because Operation() also
+// answers from the LRU operation cache, which the cleanup does not invalidate.
 func (w *c22World) stored(o c22Op) bool {
-	rop, found, err := w.pool.Operation(context.Background(), o.op.Hash())
+	_, _, body, found, err := w.pool.OperationBytes(context.Background(), o.op.Hash())
 	if err != nil {
-		w.t.Fatalf("Operation: %v", err)
+		w.t.Fatalf("OperationBytes: %v", err)
 	}
 
-	return found && rop != nil
+	return found && len(body) > 0
 }
 
 func (w *c22World) readd(i int) {
